@@ -66,6 +66,9 @@ pub struct RefStep {
     pub nc: usize,
     /// which statement (pre-order index) the source row is
     pub stmt_id: usize,
+    /// an error item after which the reference knows how the run goes on (a virtual signal
+    /// that could not be evaluated: the row itself was executed completely)
+    pub continues: bool,
 }
 
 #[derive(Clone, Debug, PartialEq, Eq)]
@@ -212,6 +215,8 @@ pub struct RefInput<'a> {
     pub max_steps: usize,
     /// order in which the library lists the virtual signals (from the real signal list)
     pub virtual_order: &'a [String],
+    /// the caller keeps iterating after error items
+    pub continue_after_error: bool,
 }
 
 struct Interp<'a> {
@@ -727,6 +732,7 @@ impl<'a> Interp<'a> {
                     nx,
                     nc,
                     stmt_id,
+                    continues: false,
                 };
                 match ans {
                     ModelAnswer::Err(id) => {
@@ -774,6 +780,7 @@ impl<'a> Interp<'a> {
                             self.last_answer_changed = before != self.outputs;
                             // outputs of the row
                             let mut outs = vec![];
+                            let mut virtual_failed = false;
                             for (name, _bits, is_virtual, exp) in &expected {
                                 let out = if *is_virtual {
                                     let expr = self
@@ -789,7 +796,17 @@ impl<'a> Interp<'a> {
                                     match r {
                                         Ok(v) => OutVal::Num(v),
                                         Err(Stop::Err(class)) => {
-                                            self.steps.push(mk(RefItem::RuntimeErr(class), &env));
+                                            let mut step = mk(RefItem::RuntimeErr(class), &env);
+                                            if self.inp.continue_after_error {
+                                                // the row itself was executed completely (entries
+                                                // evaluated, call made, answer received): the
+                                                // run goes on with what follows
+                                                step.continues = true;
+                                                self.steps.push(step);
+                                                virtual_failed = true;
+                                                break;
+                                            }
+                                            self.steps.push(step);
                                             return Err(Stop::Err(class));
                                         }
                                         Err(other) => {
@@ -803,13 +820,15 @@ impl<'a> Interp<'a> {
                                 };
                                 outs.push((name.clone(), *exp, out));
                             }
-                            self.steps.push(mk(
-                                RefItem::Row {
-                                    inputs,
-                                    outputs: outs,
-                                },
-                                &env,
-                            ));
+                            if !virtual_failed {
+                                self.steps.push(mk(
+                                    RefItem::Row {
+                                        inputs,
+                                        outputs: outs,
+                                    },
+                                    &env,
+                                ));
+                            }
                         }
                     }
                 }
@@ -836,6 +855,7 @@ impl<'a> Interp<'a> {
                 nx: 0,
                 nc: 0,
                 stmt_id,
+                continues: false,
             });
         }
         Err(stop)
@@ -865,6 +885,7 @@ impl<'a> Interp<'a> {
                     nx: 0,
                     nc: 0,
                     stmt_id: usize::MAX,
+                    continues: false,
                 });
             }
         }
@@ -1118,6 +1139,7 @@ pub fn run_reference(inp: &RefInput<'_>) -> RefRun {
                     nx: 0,
                     nc: 0,
                     stmt_id: usize::MAX,
+                    continues: false,
                 });
             } else {
                 run.truncated = true;
